@@ -4,6 +4,7 @@ package codec
 // symmetric, honours the documented equivalences and separates base types.
 
 import (
+	"runtime/debug"
 	"fmt"
 	"strings"
 	"testing"
@@ -393,4 +394,49 @@ func TestC19TypedInferSound(t *testing.T) {
 		})
 		st.Label("typed-target:" + p.name)
 	})
+}
+
+// TestC19DeepNesting (deterministic): type strings nested a few hundred thousand levels deep - a
+// block header may carry a type string of any length up to the reader's string cap. Inference and
+// the compatibility relation answer (an error is fine) instead of exhausting the goroutine stack,
+// which no recover can catch: the process would die. The stack limit is lowered to 64 MiB for the
+// duration so that "exhausting" is cheap to reach; the library is free to refuse such strings.
+func TestC19DeepNesting(t *testing.T) {
+	st := stats.G()
+	old := debug.SetMaxStack(64 << 20)
+	defer debug.SetMaxStack(old)
+	var n int64
+	for _, w := range []string{"Array", "Nullable", "LowCardinality", "Array(Nullable", "Map(String, Array", "Tuple"} {
+		for _, depth := range []int{50, 2000, 300_000} {
+			open, closeP := w+"(", ")"
+			if strings.Contains(w, "(") {
+				closeP = "))"
+			}
+			s := strings.Repeat(open, depth) + "Int8" + strings.Repeat(closeP, depth)
+			done := make(chan error, 1)
+			go func() {
+				done <- safely(func() error {
+					var a proto.ColAuto
+					err := a.Infer(proto.ColumnType(s))
+					if err == nil && a.Data == nil {
+						return fmt.Errorf("PANIC: Infer succeeded without a column")
+					}
+					return nil
+				})
+			}()
+			if err := <-done; err != nil {
+				p := st.Violate("deep-nesting", fmt.Sprintf("Infer of %s nested %d deep: %v", w, depth, err), []byte(fmt.Sprintf("%s %d", w, depth)))
+				t.Fatalf("Infer of %q nested %d levels deep: %v (replay %s)", w, depth, err, p)
+			}
+			if depth <= 2000 {
+				if _, err := conflictsNoPanic(s, s); err != nil {
+					t.Fatalf("Conflicts of %q nested %d levels deep with itself: %v", w, depth, err)
+				}
+			}
+			n++
+			st.Case(stats.Hash("c19deep", w, depth), true, func() any {
+				return map[string]any{"kind": "deep-nesting", "wrapper": w, "depth": depth, "bytes": len(s)}
+			})
+		}
+	}
 }
